@@ -313,7 +313,7 @@ def family(thorough: bool):
     add("L1.rec3", recs(ATOMS_SMALL + (S2,) if not thorough else ATOMS_MID + (FLAG_BV3, SFIX_1_m1), (3,)))
     if not thorough:
         add("L1.inherit", recs(ATOMS_SMALL + (S2,), (2,), splits_for=only_inherited))
-        add("L1.inherit", recs(tiny, (3,), splits_for=only_inherited))
+        add("L1.inherit", recs(ATOMS_TINY, (3,), splits_for=only_inherited))
     else:
         add("L1.inherit", recs(ATOMS_FULL, (2,), splits_for=only_inherited))
         add("L1.inherit", recs(ATOMS_SMALL + (S2,), (3,), splits_for=only_inherited))
@@ -352,7 +352,15 @@ def family(thorough: bool):
     add("L2.carr", carrs(L1m))
     add("L2.sarr", sarrs(L1m))
     add("L2.rec2", (("rec", fs, (2,)) for a in L1m for p in partner for fs in ((a, p), (p, a))))
-    add("L2.rec2", recs(tuple(L1rep), (2,)))
+    if thorough:
+        add("L2.rec2", recs(tuple(L1rep), (2,)))
+    else:
+        kinds = []
+        for t in L1rep:          # one representative per (kind, arity) for the all-pairs part
+            sig = (t[0], t[2] if t[0] in ("carr", "sarr") else len(t[1]) if t[0] == "rec" else 0)
+            if sig not in [k for k, _ in kinds]:
+                kinds.append((sig, t))
+        add("L2.rec2", recs(tuple(t for _, t in kinds), (2,)))
     small1 = [t for t in L1rep if width(t) <= 4 and t[0] != "trec"]
     t3 = tiny if thorough else ATOMS_TINY
     add("L2.rec3", (("rec", fs, (3,)) for a in small1 for p in t3 for q in t3 for fs in ((a, p, q), (p, a, q), (p, q, a))))
